@@ -191,8 +191,25 @@ func CmdReplayStates(args []string, seed int64) int {
 		}
 		stats["blocks_expected"] += len(st.Blocks)
 		// expected blocks in implementation terms
+		orderList := []string{}
 		for k := 0; k < *norders; k++ {
-			order := []string{"gen", "topo", "late", "lastval"}[k%4]
+			orderList = append(orderList, []string{"gen", "topo", "late", "lastval"}[k%4])
+		}
+		if st.SealFrame != 0 {
+			// the situation this DAG was kept for arises when one particular childless event arrives last: try each of them
+			hasChild := map[int]bool{}
+			for _, e := range ep.Events {
+				for _, p := range e.Ps {
+					hasChild[p] = true
+				}
+			}
+			for _, e := range ep.Events {
+				if !hasChild[e.ID] {
+					orderList = append(orderList, fmt.Sprintf("last:%d", e.ID))
+				}
+			}
+		}
+		for k, order := range orderList {
 			out := NewRecorder(devnull)
 			if n%*every == 0 {
 				out = rec
